@@ -8,7 +8,9 @@
 From Coq Require Import String.
 From Emmet Require Import lib.Base lib.StyleLib gen.GenCssSnippets model.CssTokenizer model.CssParser
      model.Score model.Color model.CssSnippets model.CssResolve model.CssFormat run.StyleShow
-     proofs.StyleSweep proofs.StyleMatchProofs proofs.StyleReachProofs proofs.StyleKeywordProofs.
+     proofs.StyleSweep proofs.StyleMatchProofs proofs.StyleReachProofs proofs.StyleKeywordProofs
+     proofs.CssTokenizerProofs proofs.StyleTokProofs proofs.CssValuePrint proofs.CssValueReach proofs.CssValueLex proofs.CssValueSource
+     proofs.CssValueParse proofs.CssValueSnippet.
 Local Open Scope N_scope.
 
 (* ---- every key of the built-in table reaches its own snippet.
@@ -172,6 +174,212 @@ Theorem C06_raw_key_reaches_property_snippet :
                  expand_with cfg sn key = Ok (own_line cfg (SnProp key prop parsed kws deps)).
 Proof. exact raw_key_reaches_property_snippet. Qed.
 Print Assumptions C06_raw_key_reaches_property_snippet.
+
+(* ---- user VALUE snippets `key: v1|v2|...`: what "<its property>: <its first listed value>" is, for ALL parsed
+   values -- any number of tokens, keywords / numbers / colours / strings / function calls nested to any depth.
+   SPEC (proofs/CssValuePrint.v): a written value is a list of [wtok] (a leaf with the text it prints as, or a call
+   with a name and comma-separated arguments); [wprint] writes tokens separated by single blanks, arguments by ", ";
+   [relabel f] replaces the i-th leaf text t (document order, from 1; names of calls are not leaves) by f i t;
+   [abs cfg v] reads a parsed value as a written value; [erase_fields] removes `${<digits>:` ... `}` from a string.
+   [printable]: the four token kinds with texts free of line breaks (push_string rewrites those), custom properties,
+   fields not glued to the previous token; [wrappable]: keywords, numbers, colours, strings, calls of those. *)
+Theorem C06_value_print :
+  forall cfg v, forallb (printable cfg) v = true -> output_value cfg v = wprint (abs cfg v).
+Proof. exact value_print. Qed.
+Print Assumptions C06_value_print.
+
+(* the value with every leaf wrapped in a tabstop ([field_of cfg i t] = what output.field returns for (i, t)) *)
+Theorem C06_value_wrapped_print :
+  forall cfg v, forallb wrappable v = true ->
+    output_value cfg (wrap_with_field cfg v) = wprint (relabel (field_of cfg) (abs cfg v)).
+Proof. exact wrapped_print. Qed.
+Print Assumptions C06_value_wrapped_print.
+
+(* ... numbered 1, 2, ..., k in document order: the leaves of the relabelled value are f 1 t1, f 2 t2, ..., f k tk *)
+Theorem C06_value_wrapped_numbering :
+  forall f ws, leaves (relabel f ws) = zipf f 1 (leaves ws).
+Proof. exact wrapped_leaves. Qed.
+Print Assumptions C06_value_wrapped_numbering.
+
+(* ERASURE: text with the fields erased = the unwrapped printing.  (a) the library's default callback prints a field
+   as its placeholder: the wrapped value prints exactly like the unwrapped one; (b) with the ${i:t} callback,
+   erasing the wrappers from the printed STRING gives the unwrapped printing (texts and names without `$` and `}`) *)
+Theorem C06_value_erase_identity :
+  forall cfg v, c_field cfg = FieldPlaceholder -> forallb wrappable v = true -> forallb (printable cfg) v = true ->
+    output_value cfg (wrap_with_field cfg v) = output_value cfg v.
+Proof. exact erase_identity. Qed.
+Print Assumptions C06_value_erase_identity.
+
+Theorem C06_value_erase_tabstop :
+  forall cfg v, c_field cfg = FieldTabstop -> forallb wrappable v = true -> forallb (printable cfg) v = true ->
+    forallb clean_tok (abs cfg v) = true ->
+    erase_fields (output_value cfg (wrap_with_field cfg v)) = output_value cfg v.
+Proof. exact erase_tabstop. Qed.
+Print Assumptions C06_value_erase_tabstop.
+
+Theorem C06_erase_relabel :
+  forall ws, forallb clean_tok ws = true -> erase_fields (wprint (relabel tabstop ws)) = wprint ws.
+Proof. exact erase_relabel. Qed.
+Print Assumptions C06_erase_relabel.
+
+(* END TO END for ALL tables (user tables included) and ALL parsed values: typing the key of a property snippet whose
+   first alternative is ONE value [v] (no top-level comma) prints `<property><between><v><after>`:
+   - unwrapped when it is the only alternative or has a field of its own;
+   - every leaf in a tabstop numbered from 1 in document order when there are >= 2 alternatives and no field.
+   [unit_given]: numbers carry a unit that is not a unit alias (resolve_numeric_value then leaves them alone; C05 owns
+   the unit rule).  PARTIAL with respect to the snippet SOURCE TEXT: the hypothesis speaks about the parsed snippet
+   (In (SnProp ...) sn); that create_snippet parses `prop:alt1|alt2` into these token lists is covered for the value
+   grammar by the tokenizer/parser theorems of C05/C18 only in part and otherwise by the correspondence (harness). *)
+Theorem C06_user_value_line_plain_partial :
+  forall cfg sn key prop v others kws deps,
+    name_ok key -> str_eqb key gradient_name = false -> c_context cfg = None -> c_json cfg = false ->
+    In (SnProp key prop ([v] :: others) kws deps) sn ->
+    (forall x, In x sn -> lower (sn_key x) = lower key -> x = SnProp key prop ([v] :: others) kws deps) ->
+    others = [] \/ has_field v = true ->
+    forallb (printable cfg) v = true -> Forall (unit_given cfg) v -> nobreakb (prop ++ c_between cfg) = true ->
+    expand_with cfg sn key = Ok (prop ++ c_between cfg ++ wprint (abs cfg v) ++ c_after cfg).
+Proof. exact user_value_line_plain. Qed.
+Print Assumptions C06_user_value_line_plain_partial.
+
+Theorem C06_user_value_line_wrapped_partial :
+  forall cfg sn key prop v o others kws deps,
+    name_ok key -> str_eqb key gradient_name = false -> c_context cfg = None -> c_json cfg = false ->
+    In (SnProp key prop ([v] :: o :: others) kws deps) sn ->
+    (forall x, In x sn -> lower (sn_key x) = lower key -> x = SnProp key prop ([v] :: o :: others) kws deps) ->
+    forallb wrappable v = true -> nobreakb (prop ++ c_between cfg) = true ->
+    expand_with cfg sn key =
+    Ok (prop ++ c_between cfg ++ wprint (relabel (field_of cfg) (abs cfg v)) ++ c_after cfg).
+Proof. exact user_value_line_wrapped. Qed.
+Print Assumptions C06_user_value_line_wrapped_partial.
+
+(* non-vacuity, with a nested call: the user table {zq: "m:f(g(1px 2px, 3px), #fff) no-repeat|none"} converts to a
+   snippet that satisfies the hypotheses of C06_user_value_line_wrapped_partial; expand prints the line below and
+   erasing the tabstops gives the value as written *)
+Example C06_value_nonvacuous :
+  let cfg := mkCfg [] None [] [] true (lit ": ") (lit ";") (lit "px") (lit "em") [] false false false f_zero true
+                   (lit "\n") [] (lit "\t") FieldTabstop in
+  let raw := [(lit "zq", lit "m:f(g(1px 2px, 3px), #fff) no-repeat|none")] in
+  exists sn v o kws deps,
+    convert_snippets raw = Ok sn /\ In (SnProp (lit "zq") (lit "m") [[v]; o] kws deps) sn /\
+    name_ok (lit "zq") /\ forallb wrappable v = true /\ forallb (printable cfg) v = true /\
+    forallb clean_tok (abs cfg v) = true /\
+    leaves (abs cfg v) = [lit "1px"; lit "2px"; lit "3px"; lit "#fff"; lit "no-repeat"] /\
+    expand_with cfg sn (lit "zq") = Ok (lit "m: f(g(${1:1px} ${2:2px}, ${3:3px}), ${4:#fff}) ${5:no-repeat};") /\
+    erase_fields (lit "m: f(g(${1:1px} ${2:2px}, ${3:3px}), ${4:#fff}) ${5:no-repeat};")
+    = lit "m: f(g(1px 2px, 3px), #fff) no-repeat;".
+Proof.
+  cbv zeta. do 5 eexists. split; [vm_compute; reflexivity|]. split; [left; reflexivity|].
+  split; [split; [discriminate|repeat constructor]|].
+  repeat split; vm_compute; reflexivity.
+Qed.
+
+(* ---- FROM THE SNIPPET TEXT (config.snippets), for ALL tables and ALL written values.
+   SPEC (proofs/CssValueSource.v): a written value is a list of [stok]: keyword (a letter, then letters / digits / _ / -),
+   number (C05's numv: sign, digits, fraction, unit), colour (C05's colv: hex digits, optional alpha), quoted string
+   (body without its own quote), or a call `name(arg, arg, ...)` whose arguments are non-empty token lists -- nested to
+   ANY depth ([toks_ok]).  [render v] is its text: tokens separated by one blank, arguments by ", ".
+   [printed cfg t] is what a token prints as (numbers through frac, colours through color/shortHex; keywords and
+   strings as written).
+
+   Tokenizer and parser on that text, for every written value: *)
+Theorem C06_value_text_parses :
+  forall v, toks_ok v -> v <> [] ->
+    exists pv, css_parse true (render v) = Ok [mkProp None [pv] false false] /\ map unpos pv = map cv_tok v.
+Proof. exact css_parse_render. Qed.
+Print Assumptions C06_value_text_parses.
+
+(* END TO END.  The user's table [raw] holds  key -> "prop:" ++ blanks ++ first ++ "|" ++ alt2 ++ "|" ... ++ semicolons  where
+   [first] is the text of ANY written value [v]; the other alternatives only have to parse ([map_res parse_value]: otherwise the
+   table does not convert at all) and, like the first, contain no `|`; the text after the colon contains no line
+   break and no `;` ([group_ok]: the regular expression of create_snippet ends a property snippet there).  Then typing
+   the key prints  prop<between> + the first alternative with every leaf token in a tabstop numbered 1..k in document
+   order + <after>.
+   PARTIAL with respect to the statement "for all user property snippets": the layout of the text is the canonical one
+   (exactly one blank between tokens, ", " between arguments, no blank before the colon; any white space after the
+   colon and any number of trailing `;` are covered); other layouts and explicit ${n:..} fields written in the text are covered by the parsed-level theorems above
+   (C06_user_value_line_*_partial, for all parsed values) and by the harness, not by a theorem about the text. *)
+Theorem C06_user_snippet_wrapped_partial :
+  forall cfg raw sn key prop ws ss v o others po pothers,
+    convert_snippets raw = Ok sn -> NoDup (map (fun kv => lower (fst kv)) raw) ->
+    In (key, prop ++ c_colon :: ws ++ join [c_pipe] (render v :: o :: others) ++ ss) raw -> blanks ws -> semis ss ->
+    name_ok key -> str_eqb key gradient_name = false -> c_context cfg = None -> c_json cfg = false ->
+    prop_ok prop -> toks_ok v -> v <> [] ->
+    group_ok (join [c_pipe] (render v :: o :: others)) ->
+    no_char c_pipe (render v) -> Forall (no_char c_pipe) (o :: others) ->
+    map_res parse_value (o :: others) = Ok (po :: pothers) ->
+    nobreakb (prop ++ c_between cfg) = true ->
+    expand_with cfg sn key =
+    Ok (prop ++ c_between cfg ++ wprint (relabel (field_of cfg) (map (printed cfg) v)) ++ c_after cfg).
+Proof. exact user_snippet_wrapped. Qed.
+Print Assumptions C06_user_snippet_wrapped_partial.
+
+(* one alternative: unwrapped; [unit_given]: numbers at the top level carry a unit that is not a unit alias (C05 owns
+   the unit rule); [printable]: the texts contain no line break *)
+Theorem C06_user_snippet_plain_partial :
+  forall cfg raw sn key prop ws ss v,
+    convert_snippets raw = Ok sn -> NoDup (map (fun kv => lower (fst kv)) raw) ->
+    In (key, prop ++ c_colon :: ws ++ render v ++ ss) raw -> blanks ws -> semis ss ->
+    name_ok key -> str_eqb key gradient_name = false -> c_context cfg = None -> c_json cfg = false ->
+    prop_ok prop -> toks_ok v -> v <> [] ->
+    group_ok (render v) -> no_char c_pipe (render v) ->
+    forallb (printable cfg) (map cv_tok v) = true -> Forall (unit_given cfg) (map cv_tok v) ->
+    nobreakb (prop ++ c_between cfg) = true ->
+    expand_with cfg sn key = Ok (prop ++ c_between cfg ++ wprint (map (printed cfg) v) ++ c_after cfg).
+Proof. exact user_snippet_plain. Qed.
+Print Assumptions C06_user_snippet_plain_partial.
+
+(* ... "its first listed value" verbatim, when every token prints as it is written (canonical numbers and colours) *)
+Theorem C06_user_snippet_plain_verbatim_partial :
+  forall cfg raw sn key prop ws ss v,
+    convert_snippets raw = Ok sn -> NoDup (map (fun kv => lower (fst kv)) raw) ->
+    In (key, prop ++ c_colon :: ws ++ render v ++ ss) raw -> blanks ws -> semis ss ->
+    name_ok key -> str_eqb key gradient_name = false -> c_context cfg = None -> c_json cfg = false ->
+    prop_ok prop -> toks_ok v -> v <> [] ->
+    group_ok (render v) -> no_char c_pipe (render v) ->
+    forallb (printable cfg) (map cv_tok v) = true -> Forall (unit_given cfg) (map cv_tok v) ->
+    nobreakb (prop ++ c_between cfg) = true ->
+    map (printed cfg) v = map written v ->
+    expand_with cfg sn key = Ok (prop ++ c_between cfg ++ render v ++ c_after cfg).
+Proof. exact user_snippet_plain_verbatim. Qed.
+Print Assumptions C06_user_snippet_plain_verbatim_partial.
+
+(* non-vacuity of the end-to-end theorem, nested call: v = f(g(1px 2px, 3px), #fff) no-repeat, second alternative none *)
+Ltac wf_tac :=
+  repeat match goal with
+         | |- _ /\ _ => split
+         | |- True => exact I
+         | |- Forall _ [] => constructor
+         | |- Forall _ (_ :: _) => constructor
+         | |- _ = _ => reflexivity
+         | |- _ <> _ => discriminate
+         | |- _ \/ _ => first [left; solve [wf_tac] | right; solve [wf_tac]]
+         | |- hexc _ => exact eq_refl
+         end.
+
+Example C06_user_snippet_nonvacuous :
+  let cfg := mkCfg [] None [] [] true (lit ": ") (lit ";") (lit "px") (lit "em") [] false false false f_zero true
+                   (lit "\n") [] (lit "\t") FieldTabstop in
+  let px (n : str) := SNum (mkNum false n None (lit "px")) in
+  let v := [SCall (lit "f") [[SCall (lit "g") [[px (lit "1"); px (lit "2")]; [px (lit "3")]]]; [SCol (mkCol (lit "fff") None)]];
+            SKw (lit "no-repeat")] in
+  let text := lit "m: f(g(1px 2px, 3px), #fff) no-repeat|none;" in
+  text = lit "m" ++ c_colon :: lit " " ++ join [c_pipe] [render v; lit "none"] ++ lit ";" /\
+  blanks (lit " ") /\ semis (lit ";") /\
+  toks_ok v /\ prop_ok (lit "m") /\ group_ok (join [c_pipe] [render v; lit "none"]) /\
+  no_char c_pipe (render v) /\ Forall (no_char c_pipe) [lit "none"] /\
+  (exists po, map_res parse_value [lit "none"] = Ok [po]) /\
+  (exists sn, convert_snippets [(lit "zq", text)] = Ok sn) /\
+  lit "m" ++ c_between cfg ++ wprint (relabel (field_of cfg) (map (printed cfg) v)) ++ c_after cfg
+  = lit "m: f(g(${1:1px} ${2:2px}, ${3:3px}), ${4:#fff}) ${5:no-repeat};".
+Proof.
+  cbv zeta. split; [vm_compute; reflexivity|]. split; [repeat constructor|]. split; [repeat constructor|].
+  split; [cbn; unfold numv_ok, colv_ok, all_digits, unit_ok; cbn; wf_tac|].
+  split; [split; [discriminate|repeat constructor]|].
+  split; [split; [vm_compute; repeat constructor|vm_compute; reflexivity]|].
+  split; [vm_compute; repeat constructor|]. split; [vm_compute; repeat constructor|].
+  split; [eexists; vm_compute; reflexivity|]. split; [eexists; vm_compute; reflexivity|].
+  vm_compute. reflexivity.
+Qed.
 
 (* ---- scope filter: @@section only raw snippets, @@property only property snippets, and the matcher
    only returns members of the list it is given *)
